@@ -27,15 +27,21 @@ RULE = ("inputs: (tri) certified oriented manifold triangle surfaces from the su
         "routines on constant attributes, one shared-mesh pass in random order, a rigidly moved + renumbered + face-rotated copy and a "
         "uniformly scaled copy.  non-trivial = at least 10 faces and (non-planar or bordered); distinct = distinct (V rounded, F/C) hash")
 REQUIRED = {
-    "ref": 60000, "ref/edge_length": 2000, "ref/edge_middle_point": 2000, "ref/face_area": 2000, "ref/face_normals": 1500,
-    "ref/face_barycenter": 2000, "ref/face_circumcenter": 1000, "ref/corner_angles": 3000, "ref/cotangent": 2000,
-    "ref/cotan_weights": 1500, "ref/vertex_normals:uniform": 500, "ref/vertex_normals:area": 500, "ref/vertex_normals:angle": 500,
-    "ref/angle_defects": 800, "ref/angle_defects:zero_border": 800, "ref/degree": 1500, "ref/cell_volume": 500,
-    "ref/cell_barycenter": 500, "ref/total_area": 80, "ref/mean_edge_length": 150, "ref/mean_face_area": 100,
-    "ref/mean_cell_volume": 30, "ref/barycenter": 150, "ref/euler_characteristic": 100,
-    "identity/triangle_angle_sum": 1500, "identity/defect_sum_2pi_chi": 60, "identity/interp_constant": 3000,
-    "rigid": 8000, "scale": 8000, "options/persistent_dense_agree": 1500, "options/attributes_left_behind": 1500,
-    "history": 8000,
+    "ref": 100000, "ref/edge_length": 10000, "ref/edge_middle_point": 10000, "ref/face_area": 7000, "ref/face_normals": 4000,
+    "ref/face_barycenter": 7000, "ref/face_circumcenter": 5000, "ref/corner_angles": 13000, "ref/cotangent": 9000,
+    "ref/cotan_weights": 5000, "ref/vertex_normals:uniform": 3000, "ref/vertex_normals:area": 3000, "ref/vertex_normals:angle": 3000,
+    "ref/vertex_normals:uniform:custom_fnormals": 500, "ref/vertex_normals:area:custom_fnormals": 500,
+    "ref/vertex_normals:angle:custom_fnormals": 500,
+    "ref/angle_defects": 2000, "ref/angle_defects:zero_border": 2000, "ref/degree": 4000, "ref/cell_volume": 900,
+    "ref/cell_barycenter": 900, "ref/total_area": 60, "ref/mean_edge_length": 230, "ref/mean_face_area": 200,
+    "ref/mean_cell_volume": 50, "ref/barycenter": 80, "ref/euler_characteristic": 60,
+    "identity/triangle_angle_sum": 900, "identity/defect_sum_2pi_chi": 70, "identity/interp_constant": 30000,
+    "rigid": 25000, "rigid/face_normals": 1000, "rigid/vertex_normals:area": 800, "rigid/face_circumcenter": 1300, "rigid/cell_volume": 200,
+    "scale": 25000, "scale/edge_length": 2400, "scale/face_area": 1700, "scale/cotangent": 2000, "scale/cell_volume": 200,
+    "options/persistent_dense_agree": 3000, "options/attributes_left_behind": 8000,
+    "history": 30000, "history/cotangent": 2500, "history/cotan_weights": 1600, "history/angle_defects": 600,
+    "history/total_area": 60, "history/mean_cell_volume": 15,
+    "reuse": 15000,
 }
 CASE_TIMEOUT = {"quick": 240.0, "thorough": 600.0}
 ASSUMPTIONS = [
@@ -98,9 +104,9 @@ def cases(seed, tier):
     rng = random.Random(seed * 10007 + 7)
     out = []
     if tier == "quick":
-        n_tri, n_poly, n_tet, sizes = 110, 90, 60, [3, 4, 5, 6]
+        n_tri, n_poly, n_tet, sizes = 100, 80, 50, [2, 3, 4, 5]
     else:
-        n_tri, n_poly, n_tet, sizes = 2200, 1700, 1100, [3, 4, 6, 8, 10]
+        n_tri, n_poly, n_tet, sizes = 5000, 4000, 2500, [3, 4, 6, 8, 10, 12]
     vrows = ["list", "tuple", "nprow", "vec"]
     irows = ["list", "tuple", "npint"]
     k = 0
@@ -108,7 +114,7 @@ def cases(seed, tier):
         for i in range(n):
             d = {"gen": kind, "seed": rng.randrange(2 ** 31), "max_size": sizes[i % len(sizes)],
                  "vrows": vrows[k % 4], "irows": irows[(k // 4) % 3],
-                 "extreme_scale": (i % 6 == 5), "sample": i in (1, 2)}
+                 "extreme_scale": (i % 4 == 3), "sample": i in (1, 2)}
             if kind == "poly":
                 d["source"] = "planar" if i % 2 == 0 else "zoo"
             if kind == "tet":
@@ -194,6 +200,7 @@ class Env:
         self.E = None               # list of (a,b) as stored by the mesh
         self.FL = None              # faces as stored by the mesh
         self.CN = None              # corner c -> (vertex, face)   (surfaces)
+        self.custom_normals = None  # face normals handed to vertex_normals(custom_fnormals=...)
         self.ok = False
 
     def fresh(self):
@@ -349,7 +356,7 @@ def compare(ctx, monitor, op, got, exp, tol, judged=None, what="", **wit):
 
 def fn_key(fn, extras):
     if fn == "vertex_normals":
-        return "vertex_normals:" + extras.get("interpolation", "area")
+        return "vertex_normals:" + extras.get("interpolation", "area") + (":custom_fnormals" if extras.get("_custom") else "")
     if fn == "angle_defects":
         return "angle_defects" + (":zero_border" if extras.get("zero_border") else "")
     return fn
@@ -360,8 +367,20 @@ def call_quantity(ctx, env, fn, spec, persistent, dense, name, extras, mesh=None
     import mouette as M
     container, dflt, dim, _, helpers = spec
     m = env.fresh() if mesh is None else mesh
-    before = snapshot(m)
     kwargs = dict(extras)
+    if kwargs.pop("_custom", False):
+        # the caller's own face normals: here the negated true normals, in a free-standing attribute
+        def mk():
+            from mouette.mesh.mesh_attributes import Attribute, ArrayAttribute
+            a = ArrayAttribute(float, len(env.custom_normals), 3) if dense else Attribute(float, 3)
+            for i, nrm in enumerate(env.custom_normals):
+                a[i] = [float(x) for x in nrm]
+            return a
+        ok, cattr = ctx.call("make_attribute", mk, abort=False)
+        if not ok:
+            return None
+        kwargs["custom_fnormals"] = cattr
+    before = snapshot(m)
     kwargs["persistent"] = persistent
     kwargs["dense"] = dense
     if name is not None:
@@ -457,6 +476,8 @@ def judge_surface(ctx, monitor, fn, extras, arr, R, env):
         for v in range(R.nV):
             exp[v], cond[v], jd[v] = R.vertex_normal(v, w)
         jd &= cond >= 0.05
+        if extras.get("_custom"):
+            exp = -exp
         if (~jd).any():
             ctx.note("vertex_normals_not_judged(ill_conditioned_or_warped_face)", int(np.sum(~jd)))
         compare(ctx, monitor, op, arr, exp, REL * K * 10 / np.maximum(cond, 0.05), judged=jd, what="normalised %s-weighted sum of face normals" % w)
@@ -548,6 +569,7 @@ def option_sweep(ctx, env, R, funcs, rng, judge):
         extras_list = [{}]
         if fn == "vertex_normals":
             extras_list = [{"interpolation": w} for w in ("uniform", "area", "angle")]
+            extras_list.append({"interpolation": rng.choice(["uniform", "area", "angle"]), "_custom": True})
         elif fn == "angle_defects":
             extras_list = [{"zero_border": False}, {"zero_border": True}]
         for extras in extras_list:
@@ -732,6 +754,11 @@ def interpolation_constants(ctx, env, rng, kind):
             out_on_mesh = rng.random() < 0.5
             ctx.cls("interp:in=%s,out=%s,dim=%d" % (in_storage, out_storage, dim))
             m = env.fresh()
+            if kind == "surface" and w in ("area", "angle") and rng.random() < 0.4:
+                # valid helper attributes already on the mesh: the routines reuse them by design
+                ctx.cls("interp:helpers_cached")
+                ctx.call("corner_angles", A.corner_angles, m, abort=False)
+                ctx.call("face_area", A.face_area, m, abort=False)
             ok, ain = ctx.call("make_attribute", _make_attr, m, src, sizes[src], dim, in_storage, cval, in_on_mesh, "c07_in", abort=False)
             if not ok:
                 continue
@@ -812,6 +839,30 @@ def history_pass(ctx, env, R, funcs, rng, judge):
         judge(ctx, "history", fn, extras, arr, R, env)
         if len(ctx.violations) > before:
             ctx.violations[-1]["witness"]["call_order"] = order[-12:]
+    # global sums on the same mesh, after the attribute they reuse ("area" / "volume") has been stored under its default name
+    import mouette as M
+    A = M.attributes
+
+    def glob(name, exp, tol):
+        ok, val = ctx.call(name, getattr(A, name), m, abort=False)
+        if not ok:
+            return
+        try:
+            err = abs(float(val) - exp)
+        except Exception:
+            err = float("inf")
+        ctx.check(err <= tol, "history", name, "differs_when_the_cached_attribute_is_reused",
+                  "%s(mesh) after a persistent %s is wrong" % (name, "cell_volume" if name == "mean_cell_volume" else "face_area"),
+                  got=repr(val), expected=exp)
+    if "cell_volume" in funcs:
+        ok, _ = ctx.call("cell_volume", A.cell_volume, m, abort=False)
+        if ok:
+            glob("mean_cell_volume", R.mean_cell_volume, REL * 10 * float(np.max(R.cdiam ** 3)))
+    elif getattr(R, "all_faces_ok", False):
+        ok, _ = ctx.call("face_area", A.face_area, m, abort=False)
+        if ok:
+            glob("total_area", R.total_area, REL * 10 * float(np.sum(R.fdiam ** 2)))
+            glob("mean_face_area", R.mean_face_area, REL * 10 * float(np.max(R.fdiam ** 2)))
 
 
 def metamorphic(ctx, monitor, env, envB, funcs, R, base, rng, maps, Q, t, s, tolm, judgeable):
@@ -929,6 +980,7 @@ def run_surface(desc, ctx):
         return
     ctx.cls("rows:%s/%s" % (desc["vrows"], desc["irows"]))
 
+    env.custom_normals = -R.normal
     base = option_sweep(ctx, env, R, SURF_FUNCS, rng, judge_surface)
     identities_surface(ctx, env, R, base)
     globals_check(ctx, env, R, rng, "surface")
@@ -1100,6 +1152,19 @@ def run_volume(desc, ctx):
 
 
 def run_case(desc, ctx):
+    # one record per distinct mechanism and case (the same defect is met by every option combination), so that a frequent
+    # defect cannot use up the per-case budget and mask a rarer one
+    seen = set()
+    record = ctx.violation
+
+    def once(monitor, op, mech, what, **witness):
+        k = (monitor, op, mech)
+        if k in seen:
+            return
+        seen.add(k)
+        record(monitor, op, mech, what, **witness)
+    ctx.violation = once
+    ctx.MAX_VIOL_PER_CASE = 40
     if desc["gen"] == "tet":
         run_volume(desc, ctx)
     else:
